@@ -90,6 +90,9 @@ def file_bytes(case):
 
 
 # ----------------------------------------------------------------------------- generator
+BOUNDARY = ['9', '10', '99', '100', '255', '256', '32767', '32768', '65535', '65536', '999999999', '1000000000',
+            '2147483647', '2147483648', '4294967295', '4294967296', '9999999999', '10000000000',
+            '99999999999999', '100000000000000', '999999999999999']
 NAME = 'abcXYZ019_.:-'
 SEQ = 'ACGTNacgtn'
 
@@ -99,6 +102,7 @@ class G:
         self.r = rng
         self.W = W
         self.p_empty_id = 0.04
+        self.boundary = False
 
     def width(self, lo=0):
         r = self.r
@@ -121,6 +125,9 @@ class G:
 
     def uint(self, maxd=None):
         r = self.r
+        if self.boundary and maxd is None and r.random() < 0.4:
+            # values next to powers of two / ten, where a narrower accumulator or a lost digit would show
+            return r.choice([b for b in BOUNDARY if len(b) <= max(self.W, 1)] or ['9'])
         d = max(1, self.width(1) if maxd is None else r.randint(1, maxd))
         d = min(d, 15)
         x = r.random()
@@ -283,6 +290,7 @@ def _vcf_header(case_decl, samples, g):
 
 def _mk(rng, fmt, n, W, crlf=False, final_newline=True, **kw):
     g = G(rng, W)
+    g.boundary = bool(kw.pop('boundary', False))
     opts = dict(p_neg=0.0, p_plus=0.0, p_dot=0.0, trailing=False, p_tags=0.5)
     opts.update(kw)
     if n <= 2 and fmt.startswith('vcf') and rng.random() < 0.8:
@@ -354,6 +362,11 @@ def generate(tier, seed):
                              declared=(rng.random() < 0.8), p_absent=rng.choice([0, 0.4, 0.8]), p_dot=0))
         for fmt in ('fastq', 'fasta2', 'fasta'):
             cases.append(_mk(rng, fmt, rng.randint(1, 6), rng.choice([1, 4, 9, 30]), crlf=(rep % 4 == 3), final_newline=(rep % 5 != 2)))
+    # integer columns whose widest field has exactly 10 / 15 digits, with values next to 2^31, 2^32, 10^k
+    for rep in range(reps):
+        for fmt in ('bed3', 'sizes', 'bed6', 'bed12', 'bdg', 'npk', 'gtf', 'pairs', 'sam', 'vcf'):
+            for W in (10, 15):
+                cases.append(_mk(rng, fmt, rng.randint(2, 5), W, crlf=(rep % 2 == 1), boundary=True))
     # the input classes behind the recorded findings (kept rare so that other violations stay visible)
     for rep in range(2 * reps):
         cases.append(_mk(rng, 'bed6', rng.randint(2, 5), 4, p_dot=0.5))
